@@ -88,6 +88,8 @@ def run(facts, rep, tier):
                'ConcurrentSubjectRouter: notify/subscribe/unsubscribe/shrink/exists/depth from any thread; user callbacks/tasks are opaque')
     rep.assume('two objects of the same class in different roots may be the same object (may-alias by class); a lock protects a field '
                'when it belongs to the same object or to an object that owns it by value / unique pointer')
+    import roles
+    facts = roles.subject_canonical(facts, rep)
     lf_ = common.router_lock_field(facts)
     ROUTER_LOCK['types'] = {common._bare(lf_['ctype'])} if lf_ is not None else set()
     eng, roots = collect(facts, rep)
